@@ -51,7 +51,8 @@ Ltac inv_facts :=
          | |- context [/ ?t] =>
              lazymatch goal with
              | H : 0 < / t |- _ => fail
-             | _ => assert (0 < / t) by (apply Rinv_0_lt_compat; sqrt_facts; first [ lra | nra ])
+             | _ => assert (0 < / t) by (apply Rinv_0_lt_compat; sqrt_facts; first [ lra | nra ]);
+                    assert (t * / t = 1) by (apply Rinv_r; sqrt_facts; first [ lra | nra ])
              end
          end.
 Ltac side := first [ lra | nra | sqrt_facts; first [ lra | nra ] | unfold Rdiv; sqrt_facts; inv_facts; first [ lra | nra ] ].
@@ -93,3 +94,43 @@ Proof.
   pose proof (Rabs_pos x). generalize dependent (Rabs x). intros a Ha.
   pd p; try lra; try reflexivity.
 Qed.
+
+Theorem acosh_defined p x : 1 <= x -> real_acosh (Rp_ops p) x = real_acosh R_ops x.
+Proof.
+  intros Hx. unfold real_acosh, real_log1p. rewrite !isinf_p, !isinf_R, cse_p, c_sqrt_eps_val. up p.
+  pd p; try lra; try reflexivity.
+Qed.
+
+Theorem atanh_defined p x : -1 < x < 1 -> real_atanh (Rp_ops p) x = real_atanh R_ops x.
+Proof.
+  intros Hx. unfold real_atanh, real_log1p. rewrite !isinf_p, !isinf_R, ce_p, c_eps_val, ch_p, c_half_val. up p.
+  assert (Ha : 0 <= Rabs x < 1) by (unfold Rabs; destruct (Rcase_abs x); lra).
+  generalize dependent (Rabs x). intros a Ha.
+  pd p; try lra; try reflexivity.
+Qed.
+
+Theorem atan2_defined p y x : real_atan2 (Rp_ops p) y x = real_atan2 R_ops y x.
+Proof. unfold real_atan2. up p. pd p; try lra; reflexivity. Qed.
+
+Theorem norm2_defined p x y : real_norm2 (Rp_ops p) x y = real_norm2 R_ops x y.
+Proof.
+  unfold real_norm2. rewrite !isinf_p, !isinf_R. up p.
+  pose proof (Rabs_pos x) as Ha. pose proof (Rabs_pos y) as Hb. revert Ha Hb. generalize (Rabs x) (Rabs y). intros a b Ha Hb.
+  destruct (Rltb_spec b a); cbn [fst snd]; pd p; try lra; reflexivity.
+Qed.
+Theorem norm3_defined p x y z : real_norm3 (Rp_ops p) x y z = real_norm3 R_ops x y z.
+Proof.
+  unfold real_norm3. rewrite !isinf_p, !isinf_R. up p.
+  pose proof (Rabs_pos x) as Ha. pose proof (Rabs_pos y) as Hb. pose proof (Rabs_pos z) as Hc. revert Ha Hb Hc.
+  generalize (Rabs x) (Rabs y) (Rabs z). intros a b c Ha Hb Hc.
+  destruct (Rltb_spec b a); cbn [fst snd]; (destruct (Rltb_spec c a) || destruct (Rltb_spec c b)); cbn [fst snd]; pd p; try lra; reflexivity.
+Qed.
+
+Theorem cart2pol_defined p x y : real_cart2pol (Rp_ops p) x y = real_cart2pol R_ops x y.
+Proof. unfold real_cart2pol. rewrite norm2_defined, atan2_defined. reflexivity. Qed.
+Theorem cart2sph_defined p x y z : real_cart2sph (Rp_ops p) x y z = real_cart2sph R_ops x y z.
+Proof. unfold real_cart2sph. rewrite !norm2_defined, !atan2_defined. reflexivity. Qed.
+Theorem pol2cart_defined p r t : real_pol2cart (Rp_ops p) r t = real_pol2cart R_ops r t.
+Proof. reflexivity. Qed.
+Theorem sph2cart_defined p r t a : real_sph2cart (Rp_ops p) r t a = real_sph2cart R_ops r t a.
+Proof. reflexivity. Qed.
